@@ -117,8 +117,11 @@ def c04(tr, st, c):
         i, j = np.unravel_index(int(np.argmax(np.abs(dm - want))), dm.shape)
         out.append(viol("C04", t, "a client does not receive production/demand of what it asked", supplier=int(i),
                         column=int(j), delivered=float(dm[i, j]), expected=float(want[i, j])))
-    if not (dm <= dem * (1 + R) + 1e-300).all():
-        i, j = np.unravel_index(int(np.argmax(dm - dem)), dm.shape)
+    # (cells of the demand matrix can hold float residues of either sign, e.g. -1e-41 left by
+    # `rebuild_demand - rebuild_prod` once an event has been served: compare up to rounding of the largest cell)
+    slack = R * np.abs(dem) + 1e-18 * (float(np.max(np.abs(dem))) if dem.size else 0.0) + 1e-300
+    if not (dm <= dem + slack).all():
+        i, j = np.unravel_index(int(np.argmax(dm - dem - slack)), dm.shape)
         out.append(viol("C04", t, "a client receives more than it asked", supplier=int(i), column=int(j),
                         delivered=float(dm[i, j]), asked=float(dem[i, j])))
     if ph.get("exc"):
@@ -339,7 +342,10 @@ def c14(tr, st, c):
     if e_any is not None:
         al = e_any["alpha"]
         lo = min(1.0, c["aBase"])
-        if (al < 1 - 1e-12).any() or (al > c["aMax"] * (1 + 1e-12)).any():
+        # upper bound: for tau >= one step (the property's quantifier).  With a step longer than alpha_tau the
+        # rule "rise by (max - current) x scarcity / tau" itself leads above the maximum (rate dt / tau > 1), so the
+        # two clauses of the property cannot both hold: outside its domain, only the lower bound is checked there
+        if (al < 1 - 1e-12).any() or (c["aTau"] <= 1.0 and (al > c["aMax"] * (1 + 1e-12)).any()):
             out.append(viol("C14", t, "overproduction factor outside [1, max]", min=float(al.min()), max=float(al.max()), amax=c["aMax"]))
     if not ph or ph["post"] is None:
         return out
